@@ -501,3 +501,85 @@ Proof.
   exact (smonitor_from_fixed_sound A ops p Happs Eb ins f0 apps [] 0 1%nat None
            (rj_new A p Eb _ _ _ E0 (Forall_nil _)) HI Hok).
 Qed.
+
+(* ------------------------------------------------------------------------------------------ *)
+(* NON-VACUITY                                                                                  *)
+
+(* (1) Station 3 alone on the bus, HSA = 5 (GAP = {4, 0, 1, 2}), one poll every 2 ms: it claims the token, scans the
+   GAP (4 0 1 2 in ClaimToken), and then polls 4, 0, 1, 2 in CONSECUTIVE token visits (AwaitStatusResponse), twice
+   over; the monitor accepts the transcript. *)
+Definition ex_sweep_params : params := mkParams 3 B19200 100 80000 1 5 1 11 None.
+Definition ex_sweep_ins : list minput :=
+  InApi ApiOnline :: map (fun k => InPoll (1000 + 2000 * Z.of_nat k) false []) (seq 0 120).
+Definition ex_sweep_tr : list FdlOracle.event := model_transcript unit unit_app_ops ex_sweep_params [tt] ex_sweep_ins.
+Definition gap_polls_in (k : state_kind) (ts : Z) (events : list FdlOracle.event) : list Z :=
+  flat_map (fun e => match e with
+                     | EPoll s => if state_kind_eqb (v_kind (s_view s)) k
+                                  then match own_gap_poll ts s with Some a => [a] | None => [] end else []
+                     | _ => []
+                     end) events.
+
+Lemma sweep_example_accepted :
+  builder_validb ex_sweep_params = true /\
+  gap_polls_in KClaimToken 3 ex_sweep_tr = [4; 0; 1; 2] /\
+  gap_polls_in KAwaitStatusResponse 3 ex_sweep_tr = [4; 0; 1; 2; 4; 0; 1; 2] /\
+  no_self_offline KOffline ex_sweep_tr = true /\
+  smonitor ex_sweep_params ex_sweep_tr = [] /\ smonitor_fixed ex_sweep_params ex_sweep_tr = [].
+Proof. vm_compute. repeat split; reflexivity. Qed.
+
+(* (2) hand-made events: the same address polled twice in one polling phase (seeded change R5-C12-2: the cursor is
+   thrown back), and a view with a valid LAS right after set_offline (R5-C12-1) *)
+Definition ex_view_poll (a : Z) : view := mkView ConnOnline true KAwaitStatusResponse 3 3 true [3] true false.
+Definition ex_gap_request (now a : Z) : FdlOracle.event :=
+  EPoll (mkPStep now false [] (Some (sr_wire a 3)) 0 [] (ex_view_poll a)).
+Definition ex_fresh : view := mkView ConnOffline false KOffline 3 3 false [3] true false.
+Definition ex_stale : view := mkView ConnOffline false KOffline 3 3 true [3] true false.
+
+Lemma sweep_example_rejected :
+  smonitor ex_sweep_params [EApi ApiNew ex_fresh; ex_gap_request 1000 4; ex_gap_request 9000 0] = [] /\
+  smonitor ex_sweep_params [EApi ApiNew ex_fresh; ex_gap_request 1000 4; ex_gap_request 9000 4] = [(2%nat, P12_sweep_order)] /\
+  smonitor ex_sweep_params [EApi ApiNew ex_fresh; ex_gap_request 1000 4; ex_gap_request 9000 1] = [(2%nat, P12_sweep_order)] /\
+  smonitor ex_sweep_params [EApi ApiNew ex_fresh; EApi ApiOnline ex_fresh; EApi ApiOffline ex_stale] = [(2%nat, P12_offline_forgets_ring)] /\
+  smonitor ex_sweep_params [EApi ApiNew ex_fresh; EApi ApiOnline ex_fresh; EApi ApiOffline ex_fresh] = [].
+Proof. vm_compute. repeat split; reflexivity. Qed.
+
+(* (3) THE FINDING: a MODEL transcript on which the monitor as it stands reports P12_sweep_order.  Station 3 (HSA 16)
+   claims the token, polls 4 in its post-claim scan (`last` = 4), gives the token up on a foreign token telegram,
+   hears its own address twice (ActiveIdle -> ListenToken), twice again: listen_token_telegram calls set_offline
+   INSIDE the poll (event 8: the view goes Offline, the cursor back to DoPoll{3}, no API event).  After set_online it
+   hears two identical rotations 2 -> 5 -> 2, answers the status request of 2, receives the token from 2 and polls 4
+   = TS + 1 - compared with the stale `last` = 4.  The repaired monitor accepts the transcript.  The same history on
+   the unmodified crate (harness, 0 divergences, ORACLE-FAIL C12 sweep_order):
+   FDL 3 1 100 16 1 80000 1 1 0 / ENV on per:8:8 run:53 run:3 inj:dc0809 run:1 inj:dc0903dc0903 run:1 inj:dc0903dc0903
+   run:1 on run:1 inj:dc0502 run:1 inj:dc0205 run:1 inj:dc0502 run:1 inj:dc0205 run:1 inj:dc0502 run:1 inj:dc0205 run:1
+   inj:100302494e16 run:4 inj:dc0302 run:1 run:6 *)
+Definition ex_fp_params : params := mkParams 3 B19200 100 80000 1 16 1 11 None.
+Definition ex_tk (da sa : Z) : bytes := [220; da; sa].
+Definition ex_fp_ins : list minput :=
+ [InApi ApiOnline; InPoll 1000 false []; InPoll 70000 false []; InPoll 75000 false []; InPoll 80000 false [];
+  InPoll 84000 false (ex_tk 8 9);
+  InPoll 85000 false (ex_tk 9 3 ++ ex_tk 9 3);
+  InPoll 86000 false (ex_tk 9 3 ++ ex_tk 9 3);
+  InApi ApiOnline;
+  InPoll 87000 false [];
+  InPoll 88000 false (ex_tk 5 2); InPoll 89000 false (ex_tk 2 5);
+  InPoll 90000 false (ex_tk 5 2); InPoll 91000 false (ex_tk 2 5);
+  InPoll 92000 false (ex_tk 5 2); InPoll 93000 false (ex_tk 2 5);
+  InPoll 94000 false [16; 3; 2; 73; 78; 22];
+  InPoll 97000 false [];
+  InPoll 101000 false (ex_tk 3 2);
+  InPoll 104000 false [];
+  InPoll 107000 false []].
+Definition ex_fp_tr : list FdlOracle.event := model_transcript unit unit_app_ops ex_fp_params [tt] ex_fp_ins.
+
+Lemma sweep_false_positive :
+  builder_validb ex_fp_params = true /\ ins_ok 0 ex_fp_ins /\
+  gap_polls_in KClaimToken 3 ex_fp_tr = [4] /\ gap_polls_in KAwaitStatusResponse 3 ex_fp_tr = [4] /\
+  no_self_offline KOffline ex_fp_tr = false /\
+  smonitor ex_fp_params ex_fp_tr = [(20%nat, P12_sweep_order)] /\
+  smonitor_fixed ex_fp_params ex_fp_tr = [].
+Proof.
+  split; [vm_compute; reflexivity|]. split.
+  { unfold ex_fp_ins, ex_tk, ins_ok, time_ok, all_bytes. repeat split; try lia; repeat constructor; unfold is_byte; lia. }
+  vm_compute. repeat split; reflexivity.
+Qed.
